@@ -4,13 +4,17 @@ C02 — pending readiness is always dispatched (no lost or starved events).
 Mechanism theorems about the poller model and the timer wheel: readiness that exists when an fd is
 registered, or arrives later, puts the entry on the ready list; a ready level-triggered entry is
 reported and goes back on the list (reported on every wait while ready); `Poll::poll` leaves no
-expired timer behind; the channel's per-dispatch budget is never zero.  "Every source with a pending
-cause was called back by an Ok dispatch" is Spec.Core's C02 clause on the real loop.
+expired timer behind; the channel's per-dispatch budget is never zero.  Over the whole loop model
+(`Inv/ReadyQ.lean`, `Inv/LogMono.lean`): after every history every ready registration that is not
+edge-triggered is reported by the next wait, and from every state an event whose token resolves
+enters its source's `process_events`.  "Every source with a pending cause was called back by an Ok
+dispatch" is Spec.Core's C02 clause on the real loop.
 -/
 import Verif.Inv.Kernel
 import Verif.Inv.Wheel
 import Verif.Generated.Consts
 import Verif.Model.Loop
+import Verif.Inv.LogMono
 
 namespace Verif.Props.C02
 open Verif.Kernel Verif.Wheel Verif.Token
@@ -66,5 +70,47 @@ theorem channel_budget_bounds (cap : Nat) :
     ping itself again (`Channel::process_events`: "Re-notify the ping source so we can try again") -/
 theorem drain_budget_exhausted (k : Nat) (s : Verif.Loop.St) :
     Verif.Loop.chanDrain k 0 s = .ok (false, false) s := rfl
+
+
+/-! ### the whole loop -/
+
+open Verif.Loop in
+/-- **After every history** not aborted by a panic — registrations, re-registrations, disables, removals, failing
+    calls, callbacks doing any of these — every entry of the poller table that is level-triggered or one-shot and ready
+    for an interest it was registered with is reported by the next wait, with that readiness: between the moment
+    readiness arises (or the registration, if readiness came first) and the next `epoll_wait`, nothing forgets it. -/
+theorem ready_registration_is_reported (ops : List Op) (hab : (run ops).aborted = false) (e : EpEntry)
+    (he : e ∈ (run ops).k.ep) (hm : e.mode ≠ .edge) (hr : Verif.Inv.ReadyQ.rdy (run ops).k e = true) :
+    (⟨e.key, (readyNow (run ops).k e).1, (readyNow (run ops).k e).2⟩ : Event) ∈ (epWait (run ops).k).1 :=
+  Verif.Inv.ReadyQ.ready_registration_is_reported ops hab e he hm hr
+
+open Verif.Loop in
+/-- the poller table never holds two entries for one fd -/
+theorem one_entry_per_fd (ops : List Op) (hab : (run ops).aborted = false) : ((run ops).k.ep.map (·.fd)).Nodup :=
+  Verif.Inv.ReadyQ.one_entry_per_fd ops hab
+
+open Verif.Loop Verif.Inv.Ctl in
+/-- **From every state**: an event of the batch whose token resolves, at its turn, to the source in slot `k` enters
+    that source's `process_events` (observation `pe k`, appended to the log as it stood and never taken back) —
+    whatever that callback and the post-processing then do.  With `C15.batch_processes_every_event` (the batch loop
+    visits every event, errors or not) this is the dispatch half of "readiness reported is readiness dispatched". -/
+theorem reported_event_enters_process_events (ev : Event) (k : Nat) (l : List Obs) :
+    Hoare (fun s => slotDisp s (forgetSub ev.key) = some k ∧ s.log = l) (processOne ev)
+      (fun _ s' => l ++ [.pe k] <+: s'.log) (fun s' => l ++ [.pe k] <+: s'.log) :=
+  Verif.Inv.LogMono.processOne_enters ev k l
+
+/-- non-vacuity: a ping source pinged while disabled and enabled again, a level generic source over a written fd —
+    both sit ready in the table before the dispatch, and the wait reports two events -/
+def readyHistory : List Verif.Loop.Op :=
+  [.c (.newPing 1), .c (.insert 1), .c (.disable 1), .c (.ping 1), .c (.enable 1),
+   .c (.fd 7), .c (.newGen 2 7 true false .level), .c (.insert 2), .c (.write 7 3)]
+
+example : (Verif.Loop.run readyHistory).aborted = false ∧
+    ((Verif.Loop.run readyHistory).k.ep.filter fun e => e.mode != .edge && Verif.Inv.ReadyQ.rdy (Verif.Loop.run readyHistory).k e).length = 2 ∧
+    (epWait (Verif.Loop.run readyHistory).k).1.length = 2 := by decide +kernel
+
+/-- why edge-triggered entries are outside the statement: reported once, then ready but no longer queued -/
+example : let s := Verif.Loop.run [.c (.fd 7), .c (.newGen 2 7 true false .edge), .c (.insert 2), .c (.write 7 3), .dispatch]
+    s.aborted = false ∧ (s.k.ep.filter fun e => Verif.Inv.ReadyQ.rdy s.k e).length = 1 ∧ (epWait s.k).1.length = 0 := by decide +kernel
 
 end Verif.Props.C02
